@@ -13,55 +13,55 @@ CHECKS = {
     note="Covers structured grid points only, not all 2^384 inputs. Totality is judged against the ideal-price spread fitting 128 bits. Trusted: uint crate arithmetic for the oracle.",
     tech="bounded-exhaustive input-grid enumeration on the real function + deployed contract (explicit-state, depth 1)", ref="DESIGN.md §4 C02"),
  "C04": dict(
-    text="Explicit-state BFS over the real factory+stableswap_3pool(+cw20): all sequences of <=3 (quick) / <=4 (thorough) deposits, withdrawals, swaps in all six directions, fee collections, fee changes, amp ramps (values on/inside/outside every bound) and block advances; on every transition D is re-solved independently (bisection on the exact polynomial) at the operation's effective amp: D/S monotone, mint <= invariant growth, pool keeps the curve reserve up to slope-scaled dust, fee split exact, there-and-back probe, ramp accepted only within bounds, effective amp == independent linear interpolation (also over a full (initial,target,start,stop,now) grid through the hook).",
+    text="Explicit-state BFS over the real factory+stableswap_3pool(+cw20): all sequences of <=3 (quick) / <=4 (thorough) deposits, withdrawals, swaps in all six directions, fee collections, fee changes, amp ramps (values on/inside/outside every bound) and block advances; on every transition D is re-solved independently (root pinned by the exact sign predicate of the polynomial) at the operation's effective amp: D/S monotone, mint <= invariant growth, pool keeps the curve reserve up to slope-scaled dust, fee split exact, there-and-back probe, ramp accepted only within bounds, effective amp == independent linear interpolation (also over a full (initial,target,start,stop,now) grid through the hook).",
     note="Bounded alphabets/depth. Rounding dust: 8 base units of D, or 4+4*max dD/dx_i when that fails; swap: 2+2*slope. Three known findings (inexact integer D/y in imbalanced pools) are reported as KNOWN-FINDING.",
     tech="explicit-state model checking of the implementation (BFS) + exhaustive amp grid", ref="DESIGN.md §4 C04"),
  "C05": dict(
     text="Explicit-state BFS over the real vault_factory+vault+cw20 LP+fee collector with a scripted borrower contract: all sequences of <=3/<=4 deposits, withdrawals, flash loans (repay exact/+1000/-1/fail), collections and fee changes from native and cw20 roots (empty, 1001, 1e6, 1e30, with pending fees); share price (B-P)/S monotone in exact integers, pro-rata mint/withdraw bounds, min-liquidity lock, deposit->withdraw probe on every accepted deposit.",
     note="Bounded alphabets/depth; nested loans are exercised by C06.", tech="explicit-state model checking of the implementation (BFS)", ref="DESIGN.md §4 C05"),
  "C07": dict(
-    text="Explicit-state BFS over four real scenarios (CP pair, stableswap pair, 3pool, vault), each with a fresh fee collector: operations sized so one charge lands in {0,1,500,999,1000,1001,1e6}; reference ledgers (sums of the charges reported by accepted operations) are compared in every state with pending/all-time/burned queries, collector balance and token supply; every collect is checked for exact transfer, no other recipient, unchanged LP reserves.",
+    text="Explicit-state BFS over four real scenarios (CP pair, stableswap pair, 3pool, vault), each with a fresh fee collector: operations sized so one charge lands in {0,1,500,999,1000,1001,1e6}; reference ledgers (sums of the charges reported by accepted operations) are compared in every state with pending/all-time/burned queries, collector balance and token supply; every collect (also one issued from inside a flash-loan callback) is checked for exact transfer, no other recipient, unchanged LP reserves.",
     note="Bounded alphabets/depth 3/4. Collector has no other income by construction.", tech="explicit-state model checking of the implementation (BFS) with reference-ledger ghost state", ref="DESIGN.md §4 C07"),
  "C06": dict(
     text="Exhaustive enumeration of the adversary: every borrower script of length <=2 over 11 base behaviours + nested loans (whose callback is again a script of length <=1 quick / <=2 thorough; thorough adds all length-3 scripts) x loan amounts {1,999,1000,1e6,balance,balance+1} x fee triples x {native,cw20} executed on the real vault through a scripted borrower contract, and every vault_router payload of <=2 atoms; per transaction: revert => full-state equality, success => balance growth >= all fees, burn destroyed, ledger growth, LOAN_COUNTER==0, no shares minted, exact payback suffices / one unit less never does, router keeps nothing and forwards the remainder, NextLoan/CompleteLoan guarded.",
     note="Adversary alphabet is finite (no reply-on-error swallowing). One known finding (inner-loan fees offset the outer repayment) reported as KNOWN-FINDING.",
     tech="exhaustive fault-sequence enumeration on the implementation (explicit-state, one transaction deep, scripts up to depth 3 with nesting)", ref="DESIGN.md §4 C06"),
  "C08": dict(
-    text="Explicit-state BFS over the real whale_lair wired to the real fee_distributor/collector: all sequences of <=4 (quick, 2 users) / <=5 (thorough, 3 users) bond/unbond/withdraw calls over 2 bonding denoms, invalid calls (foreign denom, cw20, mismatched/multiple/no funds, zero/uncovered unbond) and time steps {same block, +1ns, +period-1ns, +period, +1 day}; a reference ledger built from the accepted calls' arguments is compared in every state with Bonded/TotalBonded/Unbonding/Withdrawable and the bank balance; every withdraw pays exactly the matured unbondings once, to the owner only.",
+    text="Explicit-state BFS over the real whale_lair wired to the real fee_distributor/collector: all sequences of <=4 (quick, 2 users) / <=5 (thorough, 3 users) bond/unbond/withdraw calls over 2 bonding denoms, invalid calls (foreign denom, cw20, mismatched/no funds, two coins in either order, an extra foreign coin, zero/uncovered unbond) and time steps {same block, +1ns, +period-1ns, +period, +1 day}; a reference ledger built from the accepted calls' arguments is compared in every state with Bonded/TotalBonded/Unbonding/Withdrawable and the bank balance; every withdraw pays exactly the matured unbondings once, to the owner only.",
     note="Bounded alphabets/depth; growth rate 0 (weights are C09's concern); distributor at epoch 0.", tech="explicit-state model checking of the implementation (BFS) against a reference model", ref="DESIGN.md §4 C08"),
  "C11": dict(
     text="Explicit-state BFS over the real incentive_factory+incentive (+ real pair/LP token and frontend_helper), epochs from the repository's fee-distributor-mock: all sequences of <=4/<=5 open/expand (also for a receiver)/close/withdraw/helper-deposit/mis-funded opens/tick/snapshot/claim by 3 users, native and cw20 LP assets, incl. a root whose flow reward is the LP asset; in every state LP balance == sum(open)+sum(closed)+unclaimed LP-asset flow funds and Positions == reference model; every withdraw pays exactly the caller's closed positions and nobody else; positions only with the stated amount received; helper retains nothing.",
     note="Bounded alphabets/depth; withdraw timing is not part of C11.", tech="explicit-state model checking of the implementation (BFS) against a reference model", ref="DESIGN.md §4 C11"),
  "C12": dict(
-    text="Explicit-state BFS over the real incentive contract for 4-5 fee/reward configurations (native fee = reward denom, native fee != reward, cw20 fee = reward token, cw20 fee != reward, native fee + cw20 reward): all sequences of <=4/<=6 OpenFlow (funds exact / fee only / amount only / over), ExpandFlow (exact/short, by creator and stranger), CloseFlow (creator/owner/stranger), staking, ticks, snapshots, claims; funded amount is measured from actual balance deltas and compared with the Flow query, the collector's fee, the creator's refund on close and the contract's reward balance in every state.",
+    text="Explicit-state BFS over the real incentive contract for 4-5 fee/reward configurations (native fee = reward denom, native fee != reward, cw20 fee = reward token, cw20 fee != reward, native fee + cw20 reward): all sequences of <=4/<=6 OpenFlow (funds exact / fee only / amount only / over), ExpandFlow (exact/short, by creator and stranger, end epoch left open / named explicitly / moved > 180 epochs out), flows ending with the next epoch, CloseFlow (creator/owner/stranger), staking, ticks, snapshots, claims; funded amount is measured from actual balance deltas and compared with the Flow query, the collector's fee, the creator's refund on close and the contract's reward balance in every state.",
     note="Bounded alphabets/depth; flows last 3-4 epochs.", tech="explicit-state model checking of the implementation (BFS) with balance-delta ghost ledger", ref="DESIGN.md §4 C12"),
  "C13": dict(
     text="(a) exhaustive grid of calculate_weight (hook): 9 durations x ~300 amounts: >= amount, monotone in amount and duration, matches the documented quadratic, rejects out-of-range durations. (b) explicit-state BFS (depth 5 quick / 7 thorough) over positions of amounts {1,2,3,1000} x 3 durations by 3 users, 1-2 flows with expansions, ticks, the permissionless snapshot placed anywhere, claims in any order: raw GLOBAL_WEIGHT == sum ADDRESS_WEIGHT, shares of the current epoch (share query) sum <= 1, second claim in an epoch pays nothing, claim == Rewards query immediately before, claim <= what the covered epochs can emit, payout == ledger increase.",
     note="20-epoch / 100-epoch histories are beyond the depth bound. One known finding (close before the epoch's snapshot) reported as KNOWN-FINDING.", tech="explicit-state model checking of the implementation (BFS) + exhaustive formula grid", ref="DESIGN.md §4 C13"),
  "C09": dict(
-    text="Explicit-state BFS (depth 6 quick / 8 thorough) over the real fee_distributor + whale_lair + fee_collector (+ empty factories/router so ForwardFees runs): epoch creation (after a day / early), fee inflows {1,999,1e6}, bond/unbond/claim by 2-3 bonders, grace-period increases and attempted decreases, roots with grace 1..5 and 0-3 existing epochs: in every state claimed+available==total per epoch (claimed+rolled==total once expired), distributor balance >= sum available; each NewEpoch adds the expiring epoch's remainder to the new epoch exactly once and empties it; each claim pays exactly the ledgers' decrease == sum floor(total_e*share_e) recomputed from the bonding contract's Weight query, at most once per (address, epoch), never for epochs <= the epoch of first bonding, never from expired epochs.",
+    text="Explicit-state BFS (depth 6 quick / 8 thorough) over the real fee_distributor + whale_lair + fee_collector (+ empty factories/router so ForwardFees runs): epoch creation (after a day / early), fee inflows {1,999,1e6}, bond/unbond/claim by 2-3 bonders, grace-period increases and attempted decreases, roots with grace 1..5, 0-3 existing epochs, growth rates {0, 1e-9, 7e-9 with per-address weights summing above the global weight, 1}: in every state claimed+available==total per epoch (claimed+rolled==total once expired), distributor balance >= sum available; each NewEpoch adds the expiring epoch's remainder to the new epoch exactly once and empties it; each claim pays exactly the ledgers' decrease == sum floor(total_e*share_e) recomputed from the bonding contract's Weight query, at most once per (address, epoch), never for epochs <= the epoch of first bonding, never from expired epochs.",
     note="Bounded alphabets/depth; single distribution asset (changing it mid-history is not explored).", tech="explicit-state model checking of the implementation (BFS) with ghost ledger", ref="DESIGN.md §4 C09"),
  "C20": dict(
-    text="Explicit-state BFS (depth 9 quick / 13 thorough) over the real epoch-manager with 0-3 hook receiver contracts and over fee_distributor::NewEpoch in a full fee hub: block time set to {genesis-1ns, genesis, boundary-1ns, boundary, boundary+1ns, boundary+2.5 durations}, creation attempts (also repeated in one block), hook add/remove by owner and stranger, duration changes: creation accepted iff the full duration elapsed (and not before genesis), id+1 and start+duration exactly, rejected attempts (errors and caught panics) change nothing, every registered receiver logs exactly one notification carrying the new epoch, stored epochs gap-free.",
+    text="Explicit-state BFS (depth 9 quick / 13 thorough) over the real epoch-manager with 0-3 hook receiver contracts and over fee_distributor::NewEpoch in a full fee hub: clocks on whole seconds, with genesis at +0.75 s, a duration of 1 day + 1 ns, and genesis at time 0 (distributor); block time set to {genesis-duration-1ns, genesis-duration, genesis-1ns, genesis, boundary-1ns, boundary, boundary+1ns, boundary+2.5 durations}, creation attempts (also repeated in one block), hook add/remove by owner and stranger, duration changes: creation accepted iff the full duration elapsed (and not before genesis), id+1 and start+duration exactly, rejected attempts (errors and caught panics) change nothing, every registered receiver logs exactly one notification carrying the new epoch, stored epochs gap-free.",
     note="Durations 1 and 3 days; bounded depth.", tech="explicit-state model checking of the implementation (BFS) over time schedules", ref="DESIGN.md §4 C20"),
  "C10": dict(
     text="Exhaustive enumeration of the full configuration product (7776 configurations: fee state {0,<1000,>1000} of 2 real pairs x {0,500,5000} of 2 real vaults x take rate {inactive,0,1e-18,1%,50%,1-1e-18} x routes {both,none,A only,B only} x fault {none, routed pair paused, routed hop exceeds max spread (vault-held asset), same for the pool-only cw20 asset}); each configuration is produced by real swaps/loans on a fully deployed hub (factories, router, collector, lair, distributor) and followed by one real NewEpoch: ledgers cleared, collector assets swapped-through-route-or-untouched, DAO == floor(rate*balance) and recorded per epoch, distributor delta == new epoch total - rollover, conservation of the distribution asset, ForwardFees only by the distributor, failing hop reverts everything.",
     note="One NewEpoch per configuration; protocol fee 1%, no burn; the collector does not enumerate three-asset pools (stated scope).", tech="exhaustive configuration/fault enumeration on the implementation (explicit-state, one transaction deep)", ref="DESIGN.md §4 C10"),
  "C03": dict(
-    text="(a) exhaustive grid on the real stableswap compute_swap and LP-mint formula (hook): whole-token reserve magnitudes incl. 1:1..1:1e9 imbalances x offers {1 unit,1e-3,1,10%,100%,10x} x amp {1..1e6} x decimals {(6,6),(6,8),(8,6),(6,18),(18,6),(4,5)} x fee triples, compared with D and y solved independently by bisection on decimal-normalised reserves: pool keeps the curve reserve up to 2+2*slope base units, proceeds <= ask reserve, proceeds monotone in the offer, fees floor(share*gross), mint <= invariant growth. (b) BFS histories (depth 3/4) of swap/provide/withdraw/collect/fee changes on the real deployed stableswap pair with decimals (6,6) and (6,18): normalised D per LP never falls, mint bound, deposit->withdraw probe.",
+    text="(a) exhaustive grid on the real stableswap compute_swap and LP-mint formula (hook): whole-token reserve magnitudes incl. 1:1..1:1e9 imbalances x offers {1 unit,1e-3,1,10%,100%,10x} x amp {1..1e6} x decimals {(6,6),(6,8),(8,6),(6,18),(18,6),(4,5)} x fee triples, compared with D and y solved independently (exact sign predicate of the polynomial) on decimal-normalised reserves: pool keeps the curve reserve up to 2+2*slope base units, proceeds <= ask reserve, proceeds monotone in the offer, fees floor(share*gross), mint <= invariant growth. (b) BFS histories (depth 3/4) of swap/provide/withdraw/collect/fee changes on the real deployed stableswap pair with decimals (6,6), (6,18), (6,8) [and (8,6) thorough], deposits also with the assets listed in reverse order: normalised D per LP never falls, mint bound, deposit->withdraw probe.",
     note="Oracles apply while each reserve >= one whole token (the property's precondition). LP-value dust: D known to +-2 base units, else 4+4*max dD/dx_i. Known finding: LP mint over raw amounts with unequal decimals.",
     tech="exhaustive input-grid enumeration + explicit-state model checking of the implementation (BFS)", ref="DESIGN.md §4 C03"),
  "C14": dict(
     text="In every state reached by explicit-state BFS (depth 2 quick / 3 thorough) over the real CP pair, stableswap pair, 3pool, router chain (A-B CP, B-C CP, C-D stableswap) and vault: Simulation{offer} is compared with an execution of the same swap on a copy of the state (attributes AND balance/ledger/supply deltas, native Swap and cw20 Send paths, all directions, offers {1,999,1e6,10% reserve,reserve}); SimulateSwapOperations is compared with the receiver's balance delta for all 12 one/two/three-hop routes; Share{amount} with the payout of withdrawing that amount.",
     note="Router probes assume the router holds none of the route's assets beforehand. Bounded depth/alphabets.", tech="explicit-state model checking of the implementation (BFS) with differential probes on state copies", ref="DESIGN.md §4 C14"),
  "C15": dict(
-    text="(a) exhaustive grid of assert_max_spread over (offer,return,spread) boundary alphabet^3 x 10 max_spread values x 7 belief prices against the documented rule in exact rationals (1.3e6 points); (b) exhaustive grid of assert_slippage_tolerance (pair CP and stableswap arms, 3pool) over deposits x pools x tolerances; (c) in BFS-reached states of the real CP and stableswap pairs: swaps with every (max_spread, belief) pair must succeed iff within the limit judged on the realised amounts; (d) router: minimum_receive in {D-1,D,D+1} around the simulated amount, receivers with balance {0,5,1e9}, all 1-3 hop routes: success iff delta >= m.",
+    text="(a) exhaustive grid of assert_max_spread over (offer,return,spread) boundary alphabet^3 x 10 max_spread values x 7 belief prices against the documented rule in exact rationals (1.3e6 points); (b) exhaustive grid of assert_slippage_tolerance (pair CP and stableswap arms, 3pool) over deposits x pools x tolerances, and real ProvideLiquidity transactions on deployed cp/stableswap/3pool pools x 6 deposit shapes x 6 tolerances x the order in which the message lists the assets (documented rule on the cp outcome; outcome and minted LP independent of the listing order); (c) in BFS-reached states of the real CP and stableswap pairs: swaps with every (max_spread, belief) pair must succeed iff within the limit judged on the realised amounts; (d) router: minimum_receive in {D-1,D,D+1} around the simulated amount, receivers with balance {0,5,1e9}, all 1-3 hop routes: success iff delta >= m.",
     note="A one-unit / 1e-18 indifference band around each threshold; undefined 0/0 ratios are counted, not judged.", tech="exhaustive input-grid enumeration + explicit-state probes on the implementation", ref="DESIGN.md §4 C15"),
  "C16": dict(
-    text="Fully enumerated privilege matrix on one deployment holding every contract of the hub: 39 privileged ExecuteMsg variants (hand-classified table in the evidence) x 20 caller roles (owner, other owner, users, flow creator, a real proxy contract, each hub contract's address as sender) x {before, after transferring ownership of every contract}: an unauthorised caller must be rejected with full-state equality, the authorised caller with the same payload must succeed (so rejections are due to the caller), after the transfer the roles swap.",
+    text="Fully enumerated privilege matrix on one deployment holding every contract of the hub: 42 privileged ExecuteMsg variants (incl. NextLoan naming the caller as source vault and CloseFlow by a label shared with another user's flow) (hand-classified table in the evidence) x 20 caller roles (owner, other owner, users, flow creator, a real proxy contract, each hub contract's address as sender) x {before, after transferring ownership of every contract}: an unauthorised caller must be rejected with full-state equality, the authorised caller with the same payload must succeed (so rejections are due to the caller), after the transfer the roles swap.",
     note="Classification table is hand-written from the property. Known finding: router AssertMinimumReceive has no sender check.", tech="exhaustive matrix enumeration on the implementation (explicit-state, one transaction deep)", ref="DESIGN.md §4 C16"),
  "C17": dict(
-    text="Fully enumerated: {CP pair, stableswap pair, 3pool} x {with, without liquidity} x 2^3 toggle combinations x every entry path (direct ProvideLiquidity, via frontend_helper; LP Send{WithdrawLiquidity}, direct WithdrawLiquidity{}; native Swap, cw20 Send{Swap}, router 1-hop native / 1-hop cw20 Send / 2-hop first hop / 2-hop second hop) and {native, cw20 vault} x liquidity x 2^3 x {Deposit, Send{Withdraw}, Withdraw{}, FlashLoan direct, via vault_router}: disabled => rejected with full-state equality; enabled => same result and same balance deltas as the all-enabled control; disable->enable restores storage and behaviour; fresh pools/vaults start enabled.",
+    text="Fully enumerated: {CP pair, stableswap pair, 3pool} x {with, without liquidity} x 2^3 toggle combinations x every entry path (direct ProvideLiquidity, via frontend_helper; LP Send{WithdrawLiquidity}, direct WithdrawLiquidity{}; native Swap, cw20 Send{Swap}, router 1-hop native / 1-hop cw20 Send / 2-hop first hop / 2-hop second hop) and {native, cw20 vault} x liquidity x 2^3 x {Deposit, Send{Withdraw}, Withdraw{}, FlashLoan direct, via vault_router}: disabled => rejected with full-state equality; enabled => same result and same balance deltas as the all-enabled control; disable->enable restores storage and behaviour; fresh pools/vaults start enabled; switches sent alone, as single-field partial updates (vault) or combined with every other optional field incl. an amp ramp (pools) are stored and enforced identically.",
     note="Default features; toggles set through the factories.", tech="exhaustive matrix enumeration with a differential oracle on the implementation", ref="DESIGN.md §4 C17"),
  "C18": dict(
     text="Explicit-state BFS (depth 3 quick / 4 thorough) over sequences of configuration writes on a deployment holding every contract, in three groups (pools; vaults; distributor+lair+collector), through every write path (factory create, factory-mediated update, owner update, direct instantiate by an arbitrary account) with values on / just inside / just outside every bound (10 fee triples incl. sums 1-1e-18, 1, 1+1e-18; amp {0,1,1e6,1e6+1}; grace {0,1,2,5,30,31}; duration {1d-1ns,1d,2d}; growth {0,.5,1,1+1e-18,2}; 0-3 bonding assets; take rate {0,1e-18,.5,1-1e-18,1,1+1e-18}; vault assets plain / token-factory denoms / cw20): every Config read back in every reached state satisfies all documented bounds, grace never decreases, rejected writes change nothing.",
